@@ -465,6 +465,16 @@ class Machine:
             return
         return self.i_mov(s, ops, 'movq')
 
+    def i_movd(self, s, ops):
+        if ops[0][0] == 'xmm':
+            t = ('bits', 32, s.xmm.get(ops[0][1], ('xinit', ops[0][1])))
+            return self.put(s, ops[1], 32, t)
+        if ops[1][0] == 'xmm':
+            v = self.val(s, ops[0], 32)
+            s.xmm[ops[1][1]] = ('frombits', 32, v)
+            return
+        raise Unknown('movd without an xmm operand')
+
     def i_movl(self, s, ops):
         return self.i_mov(s, ops, 'movl')
 
@@ -923,6 +933,11 @@ class Machine:
         v = self.load(s, ops[0], 32)
         a = self._pop87(s)
         s.st.append(('fbin', 'add', 80, a, ('f2f', 32, 80, ('frombits', 32, v))))
+
+    def i_fsubs(self, s, ops):
+        v = self.load(s, ops[0], 32)
+        a = self._pop87(s)
+        s.st.append(('fbin', 'sub', 80, a, ('f2f', 32, 80, ('frombits', 32, v))))
 
 
 def _fcc_pair(a, b):
